@@ -5,7 +5,7 @@
    big-endian value of its bytes, traffic type as uint8 of the index, ...); (2) handleReq's loop over
    the RPC endpoints with its classification of error texts. *)
 From Coq Require Import ZArith NArith List Bool Lia.
-From DosVerif Require Import Base.Val Models.Bn Models.Abi Proofs.AbiProofs.
+From DosVerif Require Import Base.Val Models.Bn Models.Abi Models.Adaptor Proofs.AbiProofs Proofs.AdaptorProofs.
 Import ListNotations.
 Open Scope Z_scope.
 
@@ -51,6 +51,57 @@ Theorem C19_dead_endpoint_skipped :
   forall i o rest acc, handle i ((false, o) :: rest) acc = handle (S i) rest acc.
 Proof. exact dead_skipped. Qed.
 Print Assumptions C19_dead_endpoint_skipped.
+
+(* ---- the adaptor over a whole history (Models/Adaptor.v): calls leave the request queue one at a
+   time; reads and writes share the per-endpoint contexts *)
+
+(* the accepted transactions of ANY history of reads, writes and bursts of queued writes carry
+   consecutive nonces from the account's: no two calls share a nonce (a call is never lost to
+   "nonce too low" against its neighbour), none is skipped *)
+Theorem C19_nonces_consecutive :
+  forall es s, let '(s', outs) := hrun s es in
+  consecutive (h_nonce s) (accepted_nonces outs) /\
+  h_nonce s' = h_nonce s + Z.of_nat (length (accepted_nonces outs)).
+Proof. exact nonces_consecutive. Qed.
+Print Assumptions C19_nonces_consecutive.
+
+Theorem C19_nonces_distinct : forall es s, NoDup (accepted_nonces (snd (hrun s es))).
+Proof. exact nonces_distinct. Qed.
+Print Assumptions C19_nonces_distinct.
+
+(* k calls queued at the same moment, some endpoint healthy: k accepted transactions *)
+Theorem C19_burst_all_accepted :
+  forall k s, existsb (fun b => b) (h_alive s) = true -> length (snd (batch k s)) = k.
+Proof. exact batch_all_accepted. Qed.
+Print Assumptions C19_burst_all_accepted.
+
+(* an endpoint is switched off only by its own closed-connection answer to a read, or its own
+   nonce-retrieval failure / closed connection on a write - never by another kind of read error,
+   never by a burst *)
+Theorem C19_switched_off_only_when_blamed :
+  forall s e i, nth i (h_alive s) false = true -> nth i (h_alive (fst (hstep s e))) false = false ->
+  match e with
+  | HRead rs => nth_error rs i = Some RClosed
+  | HWrite os => exists o, nth_error os i = Some o /\ cancels o = true
+  | HBatch _ => False
+  end.
+Proof. exact switched_off_only_when_blamed. Qed.
+Print Assumptions C19_switched_off_only_when_blamed.
+
+(* hence a call made after any number of reads that failed with other errors fails over exactly as
+   if those reads had not happened *)
+Theorem C19_write_after_reads :
+  forall rss s os, Forall no_closed rss ->
+  exists outs, hrun s (map HRead rss ++ [HWrite os]) = (fst (write1 s os), outs ++ [snd (write1 s os)]).
+Proof. exact write_after_reads. Qed.
+Print Assumptions C19_write_after_reads.
+
+Example C19_history_example :
+  hrun (h0 2 7) [HRead [ROtherErr; RVal]; HWrite [OClosed; OAccept]; HBatch 2; HRead [RVal; RClosed]; HWrite [OAccept; OAccept]]
+  = (mkh [false; false] 10,
+     [OutRead true; OutWrite [1%nat] (Some OAccept) (Some 7); OutBatch [8; 9]; OutRead false; OutWrite [] None None]).
+Proof. vm_compute. reflexivity. Qed.
+Print Assumptions C19_history_example.
 
 (* non-vacuity *)
 Example C19_example :
